@@ -1,5 +1,6 @@
 import ShroudVerif.Model.StrHelpers
 import ShroudVerif.Gen.StrStmts
+import ShroudVerif.Model.BufSelect
 /-
 Line protocol for the string-helper model (engine E-strhelpers, property C10).
 A buffer is written as its byte values joined by ',' ("-" for an empty
@@ -131,6 +132,37 @@ def handleFlow : List String → String
     | none => "bad-op"
   | _ => "bad-op"
 
+namespace Sel
+open Shroud.BufSelect
+
+def sg : Nat → SGroup | 0 => .string | 1 => .char | 2 => .vector | 3 => .native | _ => .other
+def ist : Nat → IStmt | 0 => .scalar | 1 => .ptr | 2 => .ref | 3 => .pp | 4 => .pref | _ => .other
+def itn : Nat → Intent | 0 => .in_ | 1 => .out | 2 => .inout | _ => .none
+def drf : Nat → Deref | 0 => .none | 1 => .raw | 2 => .allocatable | 3 => .pointer | _ => .other
+
+def nums (s : String) : List Nat := (s.splitOn ",").map (fun t => t.toNat!)
+
+def argOf (s : String) : Option ArgFact :=
+  match nums s with
+  | [a, b, c, d, e, f] => some ⟨sg a, b != 0, c, ist d, itn e, f != 0⟩
+  | _ => none
+
+def resOf (s : String) : Option ResFact :=
+  match nums s with
+  | [a, b, c, d, e] => some ⟨sg a, b != 0, c, drf d, e != 0⟩
+  | _ => none
+
+/-- `bufsel <F_CFI> <result facts> <argument facts>*` -> clone kind and the ftrim_char_in flags -/
+def handle (cfi : String) (res : String) (args : List String) : String :=
+  match resOf res, args.mapM argOf with
+  | some r, some as =>
+    let c := cfi == "1"
+    let k := match clone c r as with | .none => "none" | .buf => "buf" | .cfi => "cfi"
+    let bits := String.mk (as.map fun a => if ftrimCharIn c a then '1' else '0')
+    "ok " ++ k ++ " " ++ (if bits.isEmpty then "-" else bits)
+  | _, _ => "bad-op"
+end Sel
+
 /-- the helper must leave the variable AND release exactly once -/
 def showRun : Res (Buf × Nat) → String
   | .ok (b, 1) => "ok " ++ encBuf b
@@ -176,6 +208,7 @@ def handle : List String → String
     | .oob => "oob"
   | ["charscalar", dest, len, c] =>
     showBuf (charScalarResult (decBuf dest) len.toNat! c.toNat!)
+  | "bufsel" :: cfi :: res :: args => Sel.handle cfi res args
   | ["ftrim", t] => "ok " ++ encBuf (ftrimCharIn (decBuf t))
   | l => handleFlow l
 
